@@ -14,6 +14,12 @@ case "${1:-}" in
   selftest) shift; exec ./bin/verifctl selftest "$@" ;;
   C15|C16|C18)
     tier="${2:-${VERIF_TIER:-quick}}"
+    if [ "$tier" = thorough ] && [ "$1" = C16 ] && [ -z "${VERIF_SKIP_SELFTESTS:-}" ]; then
+      # the thorough tier first re-establishes what every verdict rests on: the instrumented copy
+      # behaves like the original, and one seed is one execution (failures here are harness trouble)
+      ./bin/verifctl selftest instrumented-tests || { echo "check.sh: selftest instrumented-tests failed" >&2; exit 2; }
+      ./bin/verifctl selftest determinism 16 || { echo "check.sh: selftest determinism failed" >&2; exit 2; }
+    fi
     exec ./bin/verifctl check "$1" "$tier" ;;
   *) echo "usage: $0 <C15|C16|C18> <quick|thorough> | replay <file> | selftest <name>" >&2; exit 2 ;;
 esac
